@@ -31,7 +31,7 @@ def random_points(rng):
         k = int(rng.randint(1, min(5, len(pts) - i - 1) + 1))
         pts = np.delete(pts, slice(i, i + k))
     if rng.rand() < 0.5:
-        pts = pts + float(rng.choice([100.0, 1234.5, 0.3, 86400.0]))
+        pts = pts + float(rng.choice([100.0, 1234.5, 0.3, 86400.0, -7.25, -1000.0]))      # records need not start at zero (or be positive)
     return [float(x) for x in pts], dt
 
 
